@@ -165,7 +165,7 @@ PAIRS = [
 
 def conditions(tier):
     quick = tier == 'quick'
-    T = 900 if quick else 3600
+    T = 400 if quick else 3600
     conds = []
     P = 's1: str, s2: str'
     for nm, a, b in PAIRS:
